@@ -586,9 +586,12 @@ class Ref(object):
         for p, v in zip(params, vals):
             self.sv[p] = v
         self.active.append(f)
+        was_direct = self.direct
+        self.direct = False          # the body is program text even if the call is a direct-mode line
         try:
             return _conv(f[-1], self.ev(body))
         finally:
+            self.direct = was_direct
             self.active.pop()
             for p in params:
                 if saved[p] is None:
